@@ -226,8 +226,11 @@ partial def loop (h : IO.FS.Stream) (r : Option Router) (pubs : Pubs := []) : IO
   | .ok j =>
     match j.getObjVal? "cfg", j.getObjVal? "op" with
     | .ok c, .error _ =>
+      let tmpl : Option Config := match c.getObjVal? "template" with
+        | .ok t => some (toConfig t)
+        | .error _ => none
       match Router.create (toConfigs c) with
-      | some r' => do IO.println "{\"ok\":true}"; loop h (some r') []
+      | some r' => do IO.println "{\"ok\":true}"; loop h (some { r' with template := tmpl }) []
       | none => do IO.println "{\"err\":\"config\"}"; loop h none []
     | _, _ =>
       match r with
